@@ -8,7 +8,10 @@ len(seq), seq[i:j], list(seq) cut off after k elements; the *mutator task*
 inserts, deletes, pops, clears, updates, and specifically empties (and
 thereby unlinks), overfills (splits) or refills the very leaf a cursor is
 parked on.  On stored containers a third actor commits and evicts nodes
-between steps (evict-between fault).
+between steps (evict-between fault).  On transient containers the scheduler
+also interleaves INSIDE a mutation: a planned cursor step runs during the
+n-th key comparison of the mutation (object keys of the hooked class HK) or
+in the __del__ of a stored value the mutation releases (values of class FV).
 
 Oracle: every cursor step returns entries that were present in the container
 at some point of the run (a key that was a key, a value that was a value, a
@@ -45,7 +48,9 @@ LEVEL_TEXT = ("Seeded interleavings of iterator / lazy-sequence steps with "
               "inserts, deletes, pops, clear, update and targeted emptying, "
               "splitting and refilling of the parked leaf (all families, 4 "
               "kinds, both implementations, transient and stored with "
-              "commits and evictions); every step must yield a historical "
+              "commits and evictions; on transient containers also cursor "
+              "steps INSIDE a mutation: during its n-th key comparison or in "
+              "the __del__ of a value it releases); every step must yield a historical "
               "entry or raise StopIteration/RuntimeError/IndexError, the "
               "process must survive, the container must end sound with the "
               "model's contents; also on the ASan+UBSan build. Sampling.")
